@@ -672,12 +672,13 @@ class Parser:
         return self._FSTRING_ESCAPE.sub(decode, text)
 
     _CONTINUATIONS_ONLY = re.compile(r"(?:\\\r?\n)+\Z")
+    _TEXT_CUTS = re.compile(r"\{\{|\}\}|\\N\{[^}]*\}")  # where CPython's tokenizer ends a piece of literal text
 
     def _trim_after_doubled_brace(self, text: str, node: ast.Constant) -> None:
-        """CPython cuts literal text after every doubled brace; a rest made of backslash-newlines only is
-        an empty piece of its own there and does not count towards the span of the text before it."""
-        cut = max(text.rfind("{{"), text.rfind("}}")) + 2
-        if cut >= 2 and self._CONTINUATIONS_ONLY.match(text, cut):
+        """CPython cuts literal text after every doubled brace and every \\N{...}; a rest made of backslash-newlines
+        only is an empty piece of its own there and does not count towards the span of the text before it."""
+        cut = max((m.end() for m in self._TEXT_CUTS.finditer(text)), default=0)
+        if cut and self._CONTINUATIONS_ONLY.match(text, cut):
             head = text[:cut]
             node.end_lineno = node.lineno + head.count("\n")
             node.end_col_offset = len(head) - (head.rfind("\n") + 1) + (0 if "\n" in head else node.col_offset)
